@@ -10,6 +10,8 @@ import (
 	"encoding/json"
 	"fmt"
 	"reflect"
+	"runtime"
+	"sync"
 
 	"github.com/synnaxlabs/cesium/internal/unary"
 	"github.com/synnaxlabs/cesium/verifh/cesh"
@@ -25,6 +27,29 @@ type cmd struct {
 	F int `json:"f"`
 }
 
+// worker is one iterator script: channel, bounds, chunk and commands.
+type worker struct {
+	Key    uint32   `json:"key"`
+	Bounds [2]int64 `json:"bounds"`
+	Chunk  int64    `json:"chunk"`
+	Ops    []cmd    `json:"ops"`
+}
+
+// conc scripts the concurrent phase that follows the sequential commands.
+type conc struct {
+	Workers []worker   `json:"workers"`
+	Rounds  int        `json:"rounds"`
+	Writer  []cesh.SOp `json:"writer"`
+}
+
+// wres is what one worker saw: the distinct outcomes of its rounds.
+type wres struct {
+	Variants [][]out `json:"variants"`
+	Rounds   int     `json:"rounds"`
+	Panic    *string `json:"panic,omitempty"`
+	Fatal    string  `json:"fatal,omitempty"`
+}
+
 type tcase struct {
 	ID     int        `json:"id"`
 	Setup  cesh.Setup `json:"setup"`
@@ -32,6 +57,7 @@ type tcase struct {
 	Bounds [2]int64   `json:"bounds"`
 	Chunk  int64      `json:"chunk"`
 	Ops    []cmd      `json:"ops"`
+	Conc   *conc      `json:"conc,omitempty"`
 }
 
 type out struct {
@@ -54,6 +80,8 @@ type result struct {
 	Outs   []out       `json:"outs"`
 	Panic  *string     `json:"panic"`
 	Fatal  string      `json:"fatal,omitempty"`
+	Conc   []wres      `json:"conc,omitempty"`
+	Writer []cesh.SRes `json:"writer,omitempty"`
 }
 
 func runCase(c tcase) (res result) {
@@ -79,18 +107,29 @@ func runCase(c tcase) (res result) {
 		_ = env.W.Close()
 		env.W = nil
 	}
-	ch, ok := env.Chans[c.Key]
-	if !ok {
-		res.Fatal = "unknown iterator channel"
-		return
-	}
-	it, err := env.DB.VerifOpenUnaryIterator(c.Key, unary.IteratorConfig{
-		Bounds:        telem.TimeRange{Start: telem.TimeStamp(c.Bounds[0]), End: telem.TimeStamp(c.Bounds[1])},
-		AutoChunkSize: c.Chunk,
-	})
-	if err != nil {
+	if err = runIter(env, worker{Key: c.Key, Bounds: c.Bounds, Chunk: c.Chunk, Ops: c.Ops}, true, &res.Outs); err != nil {
 		res.Fatal = err.Error()
 		return
+	}
+	if c.Conc != nil {
+		res.Conc, res.Writer = runConc(env, *c.Conc)
+	}
+	return
+}
+
+// runIter opens the real unary.Iterator of one channel, executes the commands and closes it.
+// Every frame handed out by Value() is kept by reference and decoded again at the end.
+func runIter(env *cesh.Env, w worker, faults bool, dst *[]out) error {
+	ch, ok := env.Chans[w.Key]
+	if !ok {
+		return fmt.Errorf("unknown iterator channel")
+	}
+	it, err := env.DB.VerifOpenUnaryIterator(w.Key, unary.IteratorConfig{
+		Bounds:        telem.TimeRange{Start: telem.TimeStamp(w.Bounds[0]), End: telem.TimeStamp(w.Bounds[1])},
+		AutoChunkSize: w.Chunk,
+	})
+	if err != nil {
+		return err
 	}
 	defer func() { _ = it.Close() }()
 	ctx := env.Ctx
@@ -99,10 +138,10 @@ func runCase(c tcase) (res result) {
 		idxKey = ch.Key
 	}
 	// every frame handed out by Value() is kept, as a consumer collecting a traversal does
-	kept := make([][]telem.Series, 0, len(c.Ops))
-	for _, o := range c.Ops {
+	kept := make([][]telem.Series, 0, len(w.Ops))
+	for _, o := range w.Ops {
 		var ok bool
-		if o.F > 0 {
+		if faults && o.F > 0 {
 			env.Fault.Arm(idxKey, o.F)
 		}
 		switch o.C {
@@ -126,7 +165,10 @@ func runCase(c tcase) (res result) {
 			it.SetBounds(telem.TimeRange{Start: telem.TimeStamp(o.A), End: telem.TimeStamp(o.B)})
 			ok = true
 		}
-		fired := env.Fault.Disarm()
+		fired := false
+		if faults {
+			fired = env.Fault.Disarm()
+		}
 		v := it.View()
 		r := out{Ok: ok, Valid: it.Valid(), View: [2]int64{int64(v.Start), int64(v.End)}, Ser: []cesh.Ser{}, Fired: fired}
 		if e := it.Error(); e != nil {
@@ -141,7 +183,7 @@ func runCase(c tcase) (res result) {
 			r.Ser = append(r.Ser, cesh.SeriesOf(ch.DT, s))
 		}
 		kept = append(kept, held)
-		res.Outs = append(res.Outs, r)
+		*dst = append(*dst, r)
 	}
 	// the traversal is over: look at the frames the caller still holds
 	for n, held := range kept {
@@ -149,11 +191,87 @@ func runCase(c tcase) (res result) {
 		for _, s := range held {
 			late = append(late, cesh.SeriesOf(ch.DT, s))
 		}
-		if !reflect.DeepEqual(late, res.Outs[n].Ser) {
-			res.Outs[n].Late = late
+		if !reflect.DeepEqual(late, (*dst)[n].Ser) {
+			(*dst)[n].Late = late
 		}
 	}
-	return
+	return nil
+}
+
+// runConc is the concurrent phase: every worker is a goroutine that runs its command sequence
+// Rounds times, each time on an iterator of its own, while the other workers do the same on
+// channels of the same index and (optionally) one writer commits at a later time range. The
+// stored content inside the workers' bounds does not change, so every round of a worker has
+// one expected outcome; the distinct outcomes seen (at most 4) are reported.
+func runConc(env *cesh.Env, c conc) ([]wres, []cesh.SRes) {
+	if runtime.GOMAXPROCS(0) < 4 {
+		runtime.GOMAXPROCS(4)
+	}
+	res := make([]wres, len(c.Workers))
+	wr := []cesh.SRes{}
+	var wg sync.WaitGroup
+	start := make(chan struct{})
+	for n := range c.Workers {
+		wg.Add(1)
+		go func(n int) {
+			defer wg.Done()
+			w := c.Workers[n]
+			r := &res[n]
+			r.Variants = [][]out{}
+			round := func() {
+				defer func() {
+					if p := recover(); p != nil {
+						s := fmt.Sprint(p)
+						if r.Panic == nil {
+							r.Panic = &s
+						}
+					}
+				}()
+				outs := make([]out, 0, len(w.Ops))
+				if err := runIter(env, w, false, &outs); err != nil {
+					if r.Fatal == "" {
+						r.Fatal = err.Error()
+					}
+					return
+				}
+				for _, v := range r.Variants {
+					if reflect.DeepEqual(v, outs) {
+						return
+					}
+				}
+				if len(r.Variants) < 4 {
+					r.Variants = append(r.Variants, outs)
+				}
+			}
+			<-start
+			for i := 0; i < c.Rounds; i++ {
+				round()
+				r.Rounds++
+			}
+		}(n)
+	}
+	if len(c.Writer) > 0 {
+		wg.Add(1)
+		go func() {
+			defer wg.Done()
+			defer func() {
+				if p := recover(); p != nil {
+					wr = append(wr, cesh.SRes{Err: cesh.EOther, Msg: "panic: " + fmt.Sprint(p)})
+				}
+			}()
+			<-start
+			for _, o := range c.Writer {
+				wr = append(wr, env.Step(o))
+			}
+		}()
+	}
+	close(start)
+	wg.Wait()
+	if env.W != nil {
+		_ = env.W.Close()
+		env.W = nil
+	}
+	return res, wr
 }
 
 func main() {
